@@ -201,9 +201,9 @@ def run(tier, seed):
         "C05_compile_agrees_bounded_5": "bounded(5, reduced)", "C05_K1_refuted": "refuted-witness",
         "C05_K1_shared_refuted": "refuted-witness", "C05_K2_refuted": "refuted-witness",
         "C05_full_statement": "stated, not proved (induction on the tree with the pending-bodies invariant)"}
-    ok, out = vplib.cargo_build("debug", bins=["wfcode"])
+    ok, exe, out = cl.harness_exe("wfcode")
     if not ok:
-        v.tie_failure("harness build failed: " + out[-400:])
+        v.tie_failure("harness build failed: " + out)
     have_model = os.path.exists(os.path.join(vplib.OCAML_BUILD, "wf_model.ml"))
     okm, outm = vplib.ocaml_build("wf") if have_model else (False, "no extracted model")
     if not okm:
@@ -214,14 +214,7 @@ def run(tier, seed):
     distinct, samples = set(), []
     listed = {f["id"] for f in vplib.findings_for(PID)}
     if ok:
-        exe = vplib.private_copy(vplib.harness_bin("wfcode"))
-        try:
-            impl, model, err = run_pair(cases, exe)
-        finally:
-            try:
-                os.remove(exe)
-            except OSError:
-                pass
+        impl, model, err = run_pair(cases, exe)
         if err:
             v.tie_failure("correspondence run: " + err)
         if impl is not None:
@@ -230,19 +223,17 @@ def run(tier, seed):
                 # a tie broke: look harder for an input on which the property itself fails
                 rng = vplib.rng_for(seed, "C05-directed")
                 extra = ["S " + cl.hx(s) for s in cl.source_cases(rng, 20000)]
-                exe = vplib.private_copy(vplib.harness_bin("wfcode"))
-                try:
-                    impl2, _, err2 = run_pair(extra, exe) if False else (vplib.run_lines([exe], "\n".join(extra) + "\n", timeout=900)[1], None, None)
-                finally:
-                    try:
-                        os.remove(exe)
-                    except OSError:
-                        pass
+                impl2 = vplib.run_lines([exe], "\n".join(extra) + "\n", timeout=900)[1]
                 st2 = {"cases": len(extra), "kinds": {}, "outcomes": {}, "verdicts": {}, "model_disagreements": 0, "compile_disagreements": 0,
                        "checker_disagreements": 0, "not_a_tree": 0, "basic_differs": 0, "property_failures": 0, "known_hits": 0}
                 if impl2 and len(impl2) == len(extra):
                     evaluate(v, extra, impl2, None, st2, [], set(), listed)
                 stats["directed_search"] = {k: st2[k] for k in ("cases", "property_failures", "known_hits")}
+    if exe:
+        try:
+            os.remove(exe)
+        except OSError:
+            pass
     v.coverage.update({
         "evaluations": len(cases),
         "distinct_nontrivial": len(distinct),
